@@ -11,7 +11,7 @@ import textwrap
 
 class Loop:
     def __init__(self, inv=(), decreases=None, index=None, seq=None, locals=None, modifies=None,
-                 lemmas=(), havoc_extra=(), keep=()):
+                 lemmas=(), havoc_extra=(), keep=(), at_end=(), at_head=()):
         self.inv = [inv] if isinstance(inv, str) else list(inv)
         self.decreases = decreases
         self.index = index          # name under which the hidden iteration index is visible in invariants
@@ -21,6 +21,8 @@ class Loop:
         self.lemmas = list(lemmas)
         self.havoc_extra = list(havoc_extra)
         self.keep = list(keep)
+        self.at_end = [at_end] if isinstance(at_end, str) else list(at_end)
+        self.at_head = [at_head] if isinstance(at_head, str) else list(at_head)
 
 
 class Mod:
@@ -37,7 +39,7 @@ class Contract:
                  self_type=None, lemmas=(), exc_ensures=None, start_loop=None, start_assume=(),
                  name=None, notes='', trusted=False, body=None, stop_at_loop_exit=None, end_ensures=None,
                  calls=None, level='P', ghost=None, yields=None, rely=None, inline_src=None,
-                 skip_frame=False):
+                 skip_frame=False, at_exit=()):
         self.target = target
         self.file, self.qualname = target.split('::') if '::' in target else (None, target)
         self.params = dict(params or {})
@@ -66,6 +68,7 @@ class Contract:
         self.rely = rely
         self.inline_src = inline_src
         self.skip_frame = skip_frame
+        self.at_exit = [at_exit] if isinstance(at_exit, str) else list(at_exit)
 
 
 class ClassDecl:
@@ -80,8 +83,10 @@ class ClassDecl:
 
 
 class SpecFn:
-    def __init__(self, fn, name, params, returns, src_body, fuel):
+    def __init__(self, fn, name, params, returns, src_body, fuel, heap=False):
         self.fn, self.name, self.params, self.returns, self.body, self.fuel = fn, name, params, returns, src_body, fuel
+        self.heap = heap
+        self.heap_keys = None
 
 
 class Prop:
@@ -122,7 +127,7 @@ class Prop:
         if native is not None:
             self.natives[name] = native
 
-    def spec(self, fn=None, fuel=2):
+    def spec(self, fn=None, fuel=2, heap=False):
         def deco(f):
             src = textwrap.dedent(inspect.getsource(f))
             tree = ast.parse(src).body[0]
@@ -133,7 +138,7 @@ class Prop:
             r = tree.returns
             returns = r.value if isinstance(r, ast.Constant) else ast.unparse(r)
             body = [s for s in tree.body if not (isinstance(s, ast.Expr) and isinstance(s.value, ast.Constant))]
-            self.specs[f.__name__] = SpecFn(f, f.__name__, params, returns, body, fuel)
+            self.specs[f.__name__] = SpecFn(f, f.__name__, params, returns, body, fuel, heap)
             return f
         if fn is not None:
             return deco(fn)
